@@ -185,6 +185,18 @@ func genTyped(t *Tape) *Config {
 		}
 	}
 	cfg.PermitsFirst = t.Bool(1, 3)
+	cfg.AnnotateTraverse = t.Bool(1, 8)
+	if cfg.AnnotateTraverse {
+		// with annotations: a union-typed relation whose first type has the inherited
+		// permission and whose second type has not (the annotation names the first;
+		// without it the document does not type-check)
+		user := cfg.NS[0].Name
+		cfg.NS = append(cfg.NS,
+			&NSDef{Name: "TA", Rels: []*RelDef{{Name: "members", Types: []TypeRef{{NS: user}}}, {Name: "view", Rewrite: &Expr{Kind: ExIncludes, Rel: "members"}}}},
+			&NSDef{Name: "TB", Rels: []*RelDef{{Name: "others", Types: []TypeRef{{NS: user}}}}},
+			&NSDef{Name: "TC", Rels: []*RelDef{{Name: "parents", Types: []TypeRef{{NS: "TA"}, {NS: "TB"}}},
+				{Name: "view", Rewrite: &Expr{Kind: ExTraverse, Rel: "parents", Computed: "view", ViaPermits: true}}}})
+	}
 	if cfg.PermitsFirst {
 		// the model lists the members in document order (a name resolves to its first declaration)
 		for _, n := range cfg.NS {
